@@ -87,7 +87,12 @@ Definition mkTOr (a b : top) : top :=
 Fixpoint td (pnl : bool) (c : N) (t : top) : top :=
   match t with
   | TBase r => TBase (d pnl c r)
-  | TAnd a b => mkTAnd (td pnl c a) (td pnl c b)
+  | TAnd a b =>
+      (* same value as [mkTAnd (td a) (td b)]; written so that vm_compute (call by value) does not
+         compute the derivative of [b] once [a] is dead — the grammar is the first conjunct, and on
+         most bytes it dies at once *)
+      let a' := td pnl c a in
+      if is_dead a' then TBase Emp else mkTAnd a' (td pnl c b)
   | TOr a b => mkTOr (td pnl c a) (td pnl c b)
   | TNot a => TNot (td pnl c a)
   end.
